@@ -324,11 +324,17 @@ func RunConc(env *Env, prefix, in, out string) error {
 			for u := range us {
 				rtypes[u] = map[string]string{}
 				if ue, ok := chf_context.GetSelf().ChfUeFindBySupi(supi(u)); ok && !missed {
-					ue.CULock.Lock()
-					for rg, t := range ue.RatingType {
-						rtypes[u][strconv.Itoa(int(rg))] = rtypeName(t)
+					// (a lock that a request of the mix left behind must not take the recorder with it)
+					for try := 0; try < 40; try++ {
+						if ue.CULock.TryLock() {
+							for rg, t := range ue.RatingType {
+								rtypes[u][strconv.Itoa(int(rg))] = rtypeName(t)
+							}
+							ue.CULock.Unlock()
+							break
+						}
+						time.Sleep(5 * time.Millisecond)
 					}
-					ue.CULock.Unlock()
 				}
 			}
 			// follow-ups: every acknowledged session must still be usable
@@ -457,7 +463,13 @@ func RunConc(env *Env, prefix, in, out string) error {
 			_, _ = w.Write(b)
 			_ = w.WriteByte('\n')
 			_ = w.Flush()
-			if missed {
+			stuck := missed
+			for _, fu := range follow {
+				if m, ok := fu.(map[string]any); ok && m["timeout"] == true {
+					stuck = true
+				}
+			}
+			if stuck {
 				// goroutines of this repetition are stuck: nothing more can be trusted in this process
 				return nil
 			}
